@@ -37,8 +37,8 @@ ARITY = {
     # --- logical
     'AND': (1, None, [True, True, False, True]), 'OR': (1, None, [False, True, False, False]),
     'XOR': (1, None, [True, False, False, False]), 'NOT': (1, 1, [True]), 'TRUE': (0, 0, []), 'FALSE': (0, 0, []),
-    'IF': (2, 3, [True, 1, 2]), 'IFS': (2, None, [False, 1, True, 2]), 'IFERROR': (2, 2, [1, 2]), 'IFNA': (2, 2, [1, 2]),
-    'SWITCH': (3, None, [2, 1, 'a', 2, 'b', 'c']),
+    'IF': (2, 3, [True, 1, 2]), 'IFS': (2, None, [True, 1, True, 2]), 'IFERROR': (2, 2, [1, 2]), 'IFNA': (2, 2, [1, 2]),
+    'SWITCH': (3, None, [1, 1, 'a', 2, 'b', 'c']),
     # --- information
     'ISBLANK': (1, 1, [1]), 'ISERR': (1, 1, [1]), 'ISERROR': (1, 1, [1]), 'ISEVEN': (1, 1, [2]), 'ISLOGICAL': (1, 1, [True]),
     'ISNA': (1, 1, [1]), 'ISNONTEXT': (1, 1, [1]), 'ISNUMBER': (1, 1, [1]), 'ISODD': (1, 1, [3]), 'ISTEXT': (1, 1, ['a']),
@@ -59,7 +59,7 @@ ARITY = {
     'VAR.S': (1, None, NUM4), 'VARA': (1, None, NUM4), 'VARP': (1, None, NUM4), 'VARPA': (1, None, NUM4),
     # --- financial
     'CUMIPMT': (6, 6, [0.1, 12, 1000, 1, 2, 0]), 'FV': (3, 5, [0.1, 12, -100, -1000, 0]), 'IPMT': (4, 6, [0.1, 1, 12, 1000, 0, 0]),
-    'IRR': (1, 2, [[[-100], [60], [60]], 0.1]), 'NPER': (3, 5, [0.1, -100, 1000, 0, 0]), 'NPV': (2, None, [0.1, 1, 2, 3, 4]),
+    'IRR': (1, 2, [[[-100], [60], [60]], 0.1]), 'NPER': (3, 5, [0.1, -200, 1000, 0, 0]), 'NPV': (2, None, [0.1, 1, 2, 3, 4]),
     'PMT': (3, 5, [0.1, 12, 1000, 0, 0]), 'PPMT': (4, 6, [0.1, 1, 12, 1000, 0, 0]), 'PV': (3, 5, [0.1, 12, -100, 0, 0]),
     'RATE': (3, 6, [12, -100, 1000, 0, 0, 0.1]), 'XIRR': (2, 3, [[[-100], [60], [60]], [[D1], [D2], [D3]], 0.1]),
     'XNPV': (3, 3, [0.1, [[-100], [60], [60]], [[D1], [D2], [D3]]]),
@@ -102,7 +102,7 @@ CONSUMED = {
     # handlers, inspectors
     'IFERROR': NONE, 'IFNA': NONE, 'ISERROR': NONE, 'ISERR': NONE, 'ISNA': NONE, 'ISNUMBER': NONE, 'ISTEXT': NONE,
     'ISNONTEXT': NONE, 'ISLOGICAL': NONE, 'ISBLANK': NONE, 'ISREF': NONE, 'ISFORMULA': NONE, 'ERROR.TYPE': NONE,
-    'TYPE': NONE, 'N': NONE, 'T': NONE,
+    'TYPE': NONE, 'N': NONE,      # (T propagates errors: Excel's cached values in the corpus, T(J35) for all 7 errors)
     # counters / criteria: errors in the scanned range are data, an error criterion selects error cells
     'COUNT': NONE, 'COUNTA': NONE, 'COUNTBLANK': NONE, 'COUNTIF': NONE, 'COUNTIFS': NONE, 'SUMIF': NONE, 'SUMIFS': NONE,
     'AVERAGEIF': NONE, 'AVERAGEIFS': NONE,
@@ -110,10 +110,10 @@ CONSUMED = {
     'IF': {0}, 'IFS': {0}, 'SWITCH': {0}, 'CHOOSE': {0}, 'INDEX': {1, 2}, 'MATCH': {0, 2}, 'LOOKUP': {0},
     'VLOOKUP': {0, 2, 3}, 'HLOOKUP': {0, 2, 3}, 'XLOOKUP': {0}, 'FILTER': {1},
     # reference arguments are not evaluated
-    'ROW': NONE, 'COLUMN': NONE, 'ROWS': NONE, 'COLUMNS': NONE, 'AREAS': NONE, 'ADDRESS': {0, 1, 2, 3},
+    'ROW': NONE, 'COLUMN': NONE, 'ROWS': NONE, 'COLUMNS': NONE, 'AREAS': NONE,
     'AGGREGATE': NONE, 'SUBTOTAL': NONE,
-    # Excel's reference says error values among NPV's value arguments are ignored: only the rate is asserted
-    'NPV': {0},
+    # (NPV: Excel's reference says error values among the value arguments are ignored, but Excel's cached values in the
+    # corpus show them propagating; scalar errors are asserted in every position, errors inside arrays are not)
     # not an Excel function
     'DUMMYFUNCTION': NONE,
 }
@@ -126,10 +126,10 @@ AGG.update({'LARGE': {0}, 'SMALL': {0}, 'PERCENTILE': {0}, 'PERCENTILE.INC': {0}
             'QUARTILE': {0}, 'QUARTILE.INC': {0}, 'QUARTILE.EXC': {0}, 'TEXTJOIN': {2, 3, 4, 5}})
 # scalar-parameter functions: given the 1x4 array {1,"a",TRUE,#N/A} in one position and scalars elsewhere, Excel
 # either lifts the function element by element (4th element is an error) or answers #VALUE! - the result grid
-# contains an error.  Not asserted for the functions of CONSUMED (except IF/NOT-like condition lifting is skipped
-# too), for reshaping functions and where Excel's treatment of errors inside array arguments is not certain.
+# contains an error.  Not asserted for the functions of CONSUMED and AGG (other positions), for reshaping functions
+# and where Excel's treatment of errors inside array arguments is not certain.
 LIFT_EXCLUDE = set(CONSUMED) | set(AGG) | VOLATILE | INTERNAL | {
-    'TRANSPOSE', 'SINGLE', 'IRR', 'XIRR', 'XNPV', 'CORREL', 'SLOPE', 'FORECAST', 'FORECAST.LINEAR', 'MUNIT'}
+    'TRANSPOSE', 'SINGLE', 'IRR', 'XIRR', 'XNPV', 'CORREL', 'SLOPE', 'FORECAST', 'FORECAST.LINEAR', 'MUNIT', 'NPV', 'T'}
 
 PREFIXES = ('_XLFN._XLWS.', '_XLFN.', '__XLUDF.')
 
@@ -185,10 +185,21 @@ POOL = [
     ('ref:emptytext', T(''), 'ref'),
 ]
 TAGS = [p[0] for p in POOL]
+# representatives of every kind: used where several positions deviate at once at high arity
+REPS = [TAGS.index(t) for t in ('n:0', 'n:1', 'n:-2.5', 'n:1E+200', 't:abc', 't:', 'b:TRUE', 'ref:blank', 'e:#DIV/0!', 'e:#N/A',
+                                'arr:1x4err', 'rng:2x1blank')]
 
 
 def is_array(v):
     return v[0] == 'arr'
+
+
+def mismatched(args):
+    """two array arguments whose shapes cannot be stretched onto each other (neither equal nor 1 in each dimension):
+    the library answers BroadcastError by design (pinned by its own test_cell.test_invalid); an escape is accepted."""
+    shp = [(len(a[1]), len(a[1][0])) for a in args if is_array(a)]
+    return any(not ((r1 == r2 or 1 in (r1, r2)) and (c1 == c2 or 1 in (c1, c2)))
+               for i, (r1, c1) in enumerate(shp) for (r2, c2) in shp[i + 1:])
 
 
 def has_error(v):
